@@ -16,7 +16,7 @@ func init() {
 		Doc: "a slice index inside a loop must not be a counter that is initialised once and never advanced (the loop would visit the same element on every iteration)",
 		Run: ruleLoopStuck})
 	register(&Rule{Name: "prune.together", Floor: 4,
-		Doc: "in OnPrune every pruned node is removed from all of nodes, indices and indexOffset on the same path, the sink is notified with the ref and canonical flag of that same node, and a nil sink does not prevent pruning",
+		Doc: "in OnPrune, for every entry deleted from indices the nodes slice loses one element at the front and indexOffset advances by one (per round of the deleting loop, or for the whole loop at once by its number of rounds), the sink is notified with the ref and canonical flag of that same node, and a nil sink does not prevent pruning",
 		Run: rulePruneTogether})
 }
 
@@ -105,14 +105,20 @@ func ruleIdxUnits(c *Ctx) {
 				}
 				if fd.Name.Name == "getNode" {
 					// getNode is the guarded accessor itself: must test index < offset before subtracting
+					// (the comparisons that hold on the way to the indexing, in any spelling: an early refusal of
+					// index < offset, an enclosing `if index >= offset`, …)
 					guarded := false
-					ast.Inspect(fd.Body, func(m ast.Node) bool {
-						if be, ok := m.(*ast.BinaryExpr); ok && be.Op == token.LSS && isRecvField(info, be.Y, recv, "indexOffset") &&
-							types.ExprString(be.X) == types.ExprString(abs) {
-							guarded = true
+					if pa, ok := exprPoly(info, abs, nil, nil, 0); ok {
+						if sub, ok := ast.Unparen(resolveLocal(info, ix.Index, defs, 2)).(*ast.BinaryExpr); ok {
+							if po, ok := exprPoly(info, sub.Y, nil, nil, 0); ok {
+								for _, f := range pathFactsAt(parentMap(fd.Body), ix) {
+									if factSays(info, f, pa, po, token.GEQ) {
+										guarded = true
+									}
+								}
+							}
 						}
-						return true
-					})
+					}
 					if guarded {
 						c.ok(key, ix.Pos(), "getNode: subtracts the offset after testing index < indexOffset")
 					} else {
@@ -556,8 +562,11 @@ func rulePruneTogether(c *Ctx) {
 	pk, fd := c.P.mustFunc("eth2/forkchoice/proto", "ProtoArray.OnPrune")
 	info := pk.TypesInfo
 	recv := info.Defs[fd.Recv.List[0].Names[0]]
-	// the pruning loop: contains `pr.indexOffset++`
+	// the pruning loop: the one that deletes from pr.indices. For every entry it deletes, the nodes slice loses one
+	// element at the front and the offset advances by one: per round (nodes[1:], offset++) or for the whole loop at once
+	// (nodes[k:], offset += k, k the number of rounds), in any mix.
 	var pruneLoop ast.Node
+	var loopBody *ast.BlockStmt
 	ast.Inspect(fd.Body, func(n ast.Node) bool {
 		var body *ast.BlockStmt
 		switch x := n.(type) {
@@ -569,16 +578,9 @@ func rulePruneTogether(c *Ctx) {
 			return true
 		}
 		ast.Inspect(body, func(m ast.Node) bool {
-			switch s := m.(type) {
-			case *ast.IncDecStmt:
-				if isRecvField(info, s.X, recv, "indexOffset") {
-					pruneLoop = n
-				}
-			case *ast.AssignStmt:
-				for _, l := range s.Lhs {
-					if isRecvField(info, l, recv, "indexOffset") {
-						pruneLoop = n
-					}
+			if call, ok := m.(*ast.CallExpr); ok {
+				if id, ok := call.Fun.(*ast.Ident); ok && id.Name == "delete" && len(call.Args) == 2 && isRecvField(info, call.Args[0], recv, "indices") {
+					pruneLoop, loopBody = n, body
 				}
 			}
 			return true
@@ -586,60 +588,90 @@ func rulePruneTogether(c *Ctx) {
 		return true
 	})
 	if pruneLoop == nil {
-		// fall back: the loop that shrinks pr.nodes or deletes from pr.indices
-		ast.Inspect(fd.Body, func(n ast.Node) bool {
-			var body *ast.BlockStmt
-			switch x := n.(type) {
-			case *ast.ForStmt:
-				body = x.Body
-			case *ast.RangeStmt:
-				body = x.Body
-			default:
-				return true
-			}
-			ast.Inspect(body, func(m ast.Node) bool {
-				if call, ok := m.(*ast.CallExpr); ok {
-					if id, ok := call.Fun.(*ast.Ident); ok && id.Name == "delete" && len(call.Args) == 2 && isRecvField(info, call.Args[0], recv, "indices") {
-						pruneLoop = n
+		anchorFail("OnPrune: pruning loop (the one deleting from indices) not found")
+	}
+	defs := singleDefs(info, fd.Body)
+	// rounds of the loop
+	var rounds Poly
+	switch x := pruneLoop.(type) {
+	case *ast.RangeStmt:
+		if se, ok := ast.Unparen(x.X).(*ast.SliceExpr); ok && se.High != nil && se.Low == nil {
+			rounds, _ = exprPoly(info, se.High, defs, nil, 0)
+		} else if p, ok := exprPoly(info, &ast.CallExpr{Fun: ast.NewIdent("len"), Args: []ast.Expr{x.X}}, nil, nil, 0); ok {
+			rounds = p
+		}
+	case *ast.ForStmt:
+		if be, ok := ast.Unparen(x.Cond).(*ast.BinaryExpr); ok && be.Op == token.LSS {
+			if hi, ok := exprPoly(info, be.Y, defs, nil, 0); ok {
+				if as, ok := x.Init.(*ast.AssignStmt); ok && len(as.Rhs) == 1 {
+					if lo, ok := exprPoly(info, as.Rhs[0], defs, nil, 0); ok {
+						rounds = polyAdd(hi, lo, -1)
 					}
 				}
-				return true
-			})
-			return true
-		})
-	}
-	if pruneLoop == nil {
-		anchorFail("OnPrune: pruning loop not found")
-	}
-	hasDeleteIdx, hasShrink, hasOffset := false, false, false
-	ast.Inspect(pruneLoop, func(m ast.Node) bool {
-		switch s := m.(type) {
-		case *ast.CallExpr:
-			if id, ok := s.Fun.(*ast.Ident); ok && id.Name == "delete" && len(s.Args) == 2 && isRecvField(info, s.Args[0], recv, "indices") {
-				hasDeleteIdx = true
 			}
+		}
+	}
+	inLoop := func(n ast.Node) bool { return loopBody.Pos() <= n.Pos() && n.End() <= loopBody.End() }
+	// how much each of the two moves: 1 per round, or a total
+	type move struct {
+		perRound bool
+		total    Poly
+		found    bool
+		what     string
+	}
+	var shrink, offset move
+	ast.Inspect(fd.Body, func(m ast.Node) bool {
+		switch st := m.(type) {
 		case *ast.AssignStmt:
-			for i, l := range s.Lhs {
-				if isRecvField(info, l, recv, "nodes") && i < len(s.Rhs) {
-					if _, ok := ast.Unparen(s.Rhs[i]).(*ast.SliceExpr); ok {
-						hasShrink = true
+			for i, l := range st.Lhs {
+				if i >= len(st.Rhs) {
+					break
+				}
+				if isRecvField(info, l, recv, "nodes") {
+					if se, ok := ast.Unparen(st.Rhs[i]).(*ast.SliceExpr); ok && se.Low != nil && se.High == nil && isRecvField(info, se.X, recv, "nodes") {
+						if p, ok := exprPoly(info, se.Low, defs, nil, 0); ok {
+							shrink.found, shrink.what = true, types.ExprString(st.Rhs[i])
+							if k, isK := p.isConst(); inLoop(st) && isK && k == 1 {
+								shrink.perRound = true
+							} else if !inLoop(st) {
+								shrink.total = p
+							}
+						}
 					}
 				}
-				if isRecvField(info, l, recv, "indexOffset") {
-					hasOffset = true
+				if isRecvField(info, l, recv, "indexOffset") && st.Tok == token.ADD_ASSIGN {
+					if p, ok := exprPoly(info, st.Rhs[i], defs, nil, 0); ok {
+						offset.found, offset.what = true, "+= "+types.ExprString(st.Rhs[i])
+						if k, isK := p.isConst(); inLoop(st) && isK && k == 1 {
+							offset.perRound = true
+						} else if !inLoop(st) {
+							offset.total = p
+						}
+					}
 				}
 			}
 		case *ast.IncDecStmt:
-			if isRecvField(info, s.X, recv, "indexOffset") && s.Tok == token.INC {
-				hasOffset = true
+			if isRecvField(info, st.X, recv, "indexOffset") && st.Tok == token.INC {
+				offset.found, offset.what = true, "indexOffset++"
+				if inLoop(st) {
+					offset.perRound = true
+				} else {
+					offset.total = polyConst(1)
+				}
 			}
 		}
 		return true
 	})
-	if hasDeleteIdx && hasShrink && hasOffset {
+	good := func(mv move) bool {
+		return mv.found && (mv.perRound || (mv.total != nil && rounds != nil && polyEq(mv.total, rounds)))
+	}
+	switch {
+	case good(shrink) && good(offset):
 		c.ok("OnPrune.bookkeeping", pruneLoop.Pos(), "per pruned node: delete(indices), nodes shrinks by one, indexOffset advances by one")
-	} else {
-		c.bad("OnPrune.bookkeeping", pruneLoop.Pos(), "pruning loop does not update all of indices (%v), nodes (%v) and indexOffset (%v) per pruned node", hasDeleteIdx, hasShrink, hasOffset)
+	case (shrink.found && !shrink.perRound && rounds == nil) || (offset.found && !offset.perRound && rounds == nil):
+		c.unm("OnPrune.bookkeeping", pruneLoop.Pos(), "the number of rounds of the pruning loop is not readable")
+	default:
+		c.bad("OnPrune.bookkeeping", pruneLoop.Pos(), "for every entry deleted from indices the nodes slice must lose one element at the front and indexOffset advance by one; here nodes: %q, indexOffset: %q, rounds of the deleting loop: %v", shrink.what, offset.what, rounds)
 	}
 	// sink call: argument ref must come from the collected node, canonical from the same element
 	// (in OnPrune itself or in an unexported method of the array that it calls)
